@@ -222,9 +222,25 @@ fn run_flow(ctx: &mut Ctx, r: &mut Rng) {
             let g3: Vec<Option<(Vec<usize>, Vec<f64>)>> = arrays.iter().map(grad_of).collect();
             later = Some((*l, tracked_h, g3 == g2));
         }
-        (before, after, after2, internal_before, internal_after, g1, g2, plain, later)
+        // (3) the same pass started from a root handle whose own tracking is paused (stop_tracking() on the handle: the
+        // result is the same array, and what flows below it was decided when it was built)
+        let paused = eval_corgi(&p);
+        paused[root].stop_tracking();
+        let pbefore: Vec<bool> = paused.iter().map(is_tracked).collect();
+        paused[root].backward(seed.array(&od));
+        let pafter: Vec<bool> = paused.iter().map(is_tracked).collect();
+        let gp: Vec<Option<(Vec<usize>, Vec<f64>)>> = paused.iter().map(grad_of).collect();
+        // (4) `h.clone().untracked()` - "use the values of h as a constant" - on a fresh instance, for every explicitly
+        // tracked() intermediate h, before the pass: h itself must still store its gradient
+        let detached = eval_corgi(&p);
+        let consts: Vec<Array> = detached.iter().map(|a| a.clone().untracked()).collect();
+        let dflags: Vec<bool> = detached.iter().map(is_tracked).collect();
+        detached[root].backward(seed.array(&od));
+        let gd: Vec<Option<(Vec<usize>, Vec<f64>)>> = detached.iter().map(grad_of).collect();
+        drop(consts);
+        (before, after, after2, internal_before, internal_after, g1, g2, plain, later, (pbefore, pafter, gp), (dflags, gd))
     });
-    let (before, after, after2, ib, ia, g1, g2, plain, later) = match res {
+    let (before, after, after2, ib, ia, g1, g2, plain, later, (pbefore, pafter, gp), (dflags, gd)) = match res {
         Ok(x) => x,
         Err(m) => {
             ctx.violation(&format!("C09|flow|second-run-panic:{}", panic_class(&m)), format!("second pass / later expression panicked: {}\nprogram: {}", m, p.pretty()));
@@ -268,6 +284,36 @@ fn run_flow(ctx: &mut Ctx, r: &mut Rng) {
                 "C09|flow|gradient-not-plain",
                 format!("the gradient stored for n{} is tracked={} children={} holds-gradient={}\nprogram: {}", i, tracked, children, has_grad, p.pretty()),
             );
+        }
+    }
+    ctx.count("paused_root_passes_checked", 1);
+    if pbefore != pafter {
+        ctx.violation("C09|flow|paused-root|handle-flag-changed-by-pass", format!("flags before {:?} after {:?} (pass started on a handle with tracking paused)\nprogram: {}", pbefore, pafter, p.pretty()));
+    }
+    let root_base = p.base(root);
+    for i in 0..g1.len() {
+        if p.base(i) == root_base {
+            continue;
+        }
+        if g1[i] != gp[i] {
+            ctx.violation(
+                "C09|flow|paused-root|gradients-differ",
+                format!("n{}: gradient {:?} when the pass is started on the result handle, {:?} when started on the same handle after stop_tracking() on it (what flows below the result was decided when it was built)\nprogram: {}\nseed {:?}", i, g1[i], gp[i], p.pretty(), seed),
+            );
+            break;
+        }
+    }
+    ctx.count("detached_clone_runs_checked", 1);
+    if dflags != before {
+        ctx.violation("C09|flow|clone-untracked-changed-original-flag", format!("flags {:?} became {:?} after `h.clone().untracked()` on every handle\nprogram: {}", before, dflags, p.pretty()));
+    }
+    for i in 0..g1.len() {
+        if g1[i] != gd[i] {
+            ctx.violation(
+                "C09|flow|clone-untracked-changed-original",
+                format!("n{}: gradient {:?} in a plain run, {:?} when `h.clone().untracked()` was called on every handle before the pass (setting the flag on a clone never changes the original)\nprogram: {}\nseed {:?}", i, g1[i], gd[i], p.pretty(), seed),
+            );
+            break;
         }
     }
     if let Some((l, tracked_h, unchanged)) = later {
